@@ -7,7 +7,7 @@
     comparison of every run (tools/props.py run_C05), not by these theorems.                 *)
 From Coq Require Import ZArith Reals List.
 From Rubato.Model Require Import Num Reals Base Async Resamplers.
-From Rubato.Proofs Require Import MalformedP ContentP FastInR FastOutR StreamR StreamOutR FftInOutP FftInR FftOutR FftStreamP FftInStreamR FftOutStreamR NearestR SincInR SincStreamR.
+From Rubato.Proofs Require Import MalformedP ContentP FastInR FastOutR StreamR StreamOutR FftInOutP FftInR FftOutR FftStreamP FftInStreamR FftOutStreamR NearestR SincInR SincStreamR SincOutR SincOutStreamR.
 From Rubato.Gen Require Import SincGen.
 From Rubato.Model Require Import Fft.
 From Rubato.Gen Require Import SynchroGen.
@@ -184,6 +184,35 @@ Theorem C05_sinc_in_stream_R : forall ratio0 maxrel env ilen inbr chunk nch s (c
   end.
 Proof. exact si_fresh_stream_R. Qed.
 
+(** SincFixedOut: the stream of a fresh resampler is the same sinc specification, for any chunk size and any set_chunk_size
+    schedule (every oversampling factor the constructor accepts: the corner where the last window of a chunk reaches one
+    cell beyond the filled region, with weight exactly 0, is handled in SincOutStreamR); hence SincFixedIn and SincFixedOut
+    write the same frames on their common prefix. *)
+Theorem C05_sinc_out_stream_R : forall ratio0 maxrel env ilen inbr chunk nch s (c : nat) (X : Z -> R) ops,
+  (1 <= chunk)%Z -> (0 <= nch)%Z -> (8 <= ilen)%Z -> (ilen mod 2 = 0)%Z -> nbr_ok (se_type env) inbr ->
+  (c < Z.to_nat nch)%nat ->
+  @sinc_out_new CR SR ratio0 maxrel env ilen inbr chunk nch = inr (RSincOut env s) ->
+  (forall n, (n < 0)%Z -> X n = 0) ->
+  ufed env c X 0 s ops ->
+  match so_stream env c s ops with
+  | Ok (_, _, ys) => forall j, (0 <= j < zlen ys)%Z ->
+                       getR ys j = sinc_spec env ilen inbr X (- IZR (ilen ÷ 2) + IZR (j + 1) * / ratio0)
+  | Err _ => True
+  | Panic _ | UB _ | Diverge => False
+  end.
+Proof. exact so_fresh_stream_R. Qed.
+
+Theorem C05_sinc_variant_independent_R : forall ratio0 maxrel1 maxrel2 env ilen inbr chunk1 chunk2 nch1 nch2 s1 s2 (c1 c2 : nat) (X : Z -> R) ops1 ops2,
+  (1 <= chunk1)%Z -> (1 <= chunk2)%Z -> (0 <= nch1)%Z -> (0 <= nch2)%Z -> (8 <= ilen)%Z -> (ilen mod 2 = 0)%Z ->
+  nbr_ok (se_type env) inbr -> (c1 < Z.to_nat nch1)%nat -> (c2 < Z.to_nat nch2)%nat ->
+  @sinc_in_new CR SR ratio0 maxrel1 env ilen inbr chunk1 nch1 = inr (RSincIn env s1) ->
+  @sinc_out_new CR SR ratio0 maxrel2 env ilen inbr chunk2 nch2 = inr (RSincOut env s2) ->
+  (forall n, (n < 0)%Z -> X n = 0) ->
+  sfed env c1 X 0 s1 ops1 -> ufed env c2 X 0 s2 ops2 ->
+  forall r1 r2 ys1 ys2, si_stream env c1 s1 ops1 = Ok (r1, ys1) -> so_stream env c2 s2 ops2 = Ok (r2, ys2) ->
+  forall j, (0 <= j < zlen ys1)%Z -> (j < zlen ys2)%Z -> getR ys1 j = getR ys2 j.
+Proof. exact sinc_variant_independent_R. Qed.
+
 Print Assumptions C05_fast_in_call_R.
 Print Assumptions C05_fast_in_stream_R.
 Print Assumptions C05_fast_out_stream_R.
@@ -196,3 +225,5 @@ Print Assumptions C05_fft_out_call_R.
 Print Assumptions C05_fft_out_stream_R.
 Print Assumptions C05_sinc_in_call_R.
 Print Assumptions C05_sinc_in_stream_R.
+Print Assumptions C05_sinc_out_stream_R.
+Print Assumptions C05_sinc_variant_independent_R.
